@@ -604,9 +604,11 @@ class C01:
         def adapters_in(t_, meth_):
             out_ = set()
             for x in walk(t_):
-                if x[0] == "call" and x[1][0] == "attr" and x[1][2] == meth_ and x[1][1][0] == "attr" and x[1][1][1] == ("param", "self"):
+                hit_ = x[0] == "call" and x[1][0] == "attr" and (x[1][2] == meth_ or (meth_ == "to_aoef" and x[1][2] not in ("from_id", "to_soundevent", "values", "get_id")
+                                                                                      and not x[1][2].startswith("_") and x[1][2] in NEW_ADAPTER_METHODS(self.ctx)))
+                if hit_ and x[1][1][0] == "attr" and x[1][1][1] == ("param", "self"):
                     out_.add(x[1][1][2])
-                elif x[0] == "call" and x[1][0] == "attr" and x[1][2] == meth_ and x[1][1] == ("param", "self"):
+                elif hit_ and x[1][1] == ("param", "self"):
                     out_.add("(self)")  # the adapter's own store (a sequence's parent is a sequence)
             return out_
         for f in Df:
@@ -1426,6 +1428,17 @@ def check_term_codec(ctx: Ctx):
     else:
         ctx.bad("R01.7", cfile, "term_from_key", f"return {show(r)[:60] if r else '-'}",
                 "term_from_key must rebuild a Term whose label is the stored key", k2.node.lineno)
+
+
+def NEW_ADAPTER_METHODS(ctx):
+    """names of the methods of DataAdapter that the reference tree does not have (`reference`: convert and hand back the identifier)"""
+    from sa.sym import PINNED
+    from .aoef import ADAPTERS_MOD
+    try:
+        da = ctx.index.need_class(ADAPTERS_MOD, "DataAdapter")
+    except Exception:  # noqa: BLE001
+        return set()
+    return {n for n in da.methods if f"DataAdapter.{n}" not in PINNED.get(ADAPTERS_MOD, ())}
 
 
 def check_file_guards(ctx: Ctx):
